@@ -678,7 +678,7 @@ fn run(ctx: &Ctx) {
     let plans = [
         GenPlan {
             gen: "dwarf",
-            cases: ctx.tier.pick(8000, 200_000),
+            cases: ctx.tier.pick(40_000, 400_000),
             min_len: 40,
             max_len: ctx.tier.pick(900, 2500),
         },
@@ -721,4 +721,23 @@ pub fn debug_dump(input: &Input) {
     }
     let rb = dwarf::read_back(&e).unwrap();
     println!("{:?}", rb);
+    // GC mode
+    let mut m = cfg.parse(&b.bytes).unwrap();
+    walrus::passes::gc::run(&mut m);
+    let e = m.emit_wasm();
+    let db = decode(&e).unwrap();
+    let cs_b = db.code_section_start.unwrap_or(0);
+    println!("== gc");
+    println!("in exports {:?}", da.exports);
+    println!("in start {:?} elems {:?}", da.start, da.elems);
+    println!("in globals {:?}", da.globals.iter().map(|g| g.init.iter().map(|o| o.short()).collect::<Vec<_>>()).collect::<Vec<_>>());
+    {
+        let mut iso = crate::iso::Iso::new(&da, &db);
+        let r = iso.run_gc();
+        println!("iso {:?} funcs {:?} ambiguous {:?}", r.map_err(|e| e.signature), iso.funcs.fwd, iso.ambiguous_funcs);
+    }
+    for (fo, f) in db.funcs.iter().enumerate() {
+        println!("gc-out func {} entry {:?} rel {}..{} first op {:?}", fo, f.entry_range, f.entry_range.start - cs_b, f.entry_range.end - cs_b, f.ops.first().map(|o| o.short()));
+    }
+    println!("{:?}", dwarf::read_back(&e));
 }
